@@ -18,7 +18,8 @@
  *           birthtime? dev? ino? nlink rdev body chunks flags xattrs fflags )
  *   x? = () unset | (v);  times are (sec nsec);  chunks = list of write sizes (last one repeats;
  *   empty = one write);  flags bit0: stop after this header (the sink then refuses all output), bit1: set the pathname as a wide string made of the bytes' code points,
- *   bit2: do not write the body although size > 0, bit3: uname/gname/linknames via wide strings too.
+ *   bit2: do not write the body although size > 0, bit3: uname/gname/linknames via wide strings too,
+ *   bit4: add a POSIX.1e access ACL with one named user.
  * result = ( ( open ( (hdr err before after data finish)* ) close total ) bytes
  *            ( format filter ( rentry* ) final err ) )
  * rentry = ( status path? hardlink? symlink? uname? gname? mode uid gid size? mtime? atime? ctime?
@@ -128,6 +129,13 @@ static struct archive_entry *make_entry(val *d)
 	set_str(e, v_at(d, 2), flags & 8, archive_entry_copy_symlink, archive_entry_copy_symlink_w);
 	set_str(e, v_at(d, 3), flags & 8, archive_entry_copy_uname, archive_entry_copy_uname_w);
 	set_str(e, v_at(d, 4), flags & 8, archive_entry_copy_gname, archive_entry_copy_gname_w);
+	if (flags & 16) {	/* a POSIX.1e access ACL with one named user */
+		archive_entry_acl_add_entry(e, ARCHIVE_ENTRY_ACL_TYPE_ACCESS, 7, ARCHIVE_ENTRY_ACL_USER_OBJ, -1, NULL);
+		archive_entry_acl_add_entry(e, ARCHIVE_ENTRY_ACL_TYPE_ACCESS, 4, ARCHIVE_ENTRY_ACL_USER, 77, "u77");
+		archive_entry_acl_add_entry(e, ARCHIVE_ENTRY_ACL_TYPE_ACCESS, 5, ARCHIVE_ENTRY_ACL_GROUP_OBJ, -1, NULL);
+		archive_entry_acl_add_entry(e, ARCHIVE_ENTRY_ACL_TYPE_ACCESS, 5, ARCHIVE_ENTRY_ACL_MASK, -1, NULL);
+		archive_entry_acl_add_entry(e, ARCHIVE_ENTRY_ACL_TYPE_ACCESS, 4, ARCHIVE_ENTRY_ACL_OTHER, -1, NULL);
+	}
 	archive_entry_set_mode(e, (mode_t)v_ull(v_at(d, 5)));
 	archive_entry_set_uid(e, v_ll(v_at(d, 6)));
 	archive_entry_set_gid(e, v_ll(v_at(d, 7)));
